@@ -20,7 +20,11 @@ def scen(T, cons, hist):
     return p
 
 
-A, POP, ROOT, CHK = 0, 1, 2, 3
+A, POP, ROOT, CHK, CL = 0, 1, 2, 3, 4
+
+
+def cl(c1, s1, c2, s2):
+    return (CL, c1, s1 + 2 * s2 + 4 * c2)
 CURATED = [
     # chain 1->2->3 and a closing edge that makes a negative cycle when asserted
     (3, [(1, 2, 2), (2, 3, 1), (3, 1, -4)], [(A, 0, 1), (A, 1, 1), (A, 2, 1), (POP, 0, 0)]),
@@ -52,6 +56,12 @@ def boundary_family():
             for s0, s1 in ((1, 1), (1, 0), (0, 1), (0, 0)):
                 out.append((2, cons, [(A, 0, s0), (A, 1, s1), (CHK, 2, 1), (POP, 0, 0), (A, 2, s1)]))
                 out.append((2, cons, [(A, 1, s1), (A, 0, s0), (A, 2, 0), (POP, 0, 0), (POP, 0, 0)]))
+    # one decision that tightens the same matrix entry twice (a root clause makes the weaker constraint imply the tighter one), then retract it
+    for (d1, d2) in ((3, 1), (1, 3), (2, 2), (0, -1)):
+        cons = [(1, 2, d1), (1, 2, d2), (2, 3, 1), (3, 1, -d1 - 1)]
+        out.append((3, cons, [(ROOT, 2, 1), cl(0, 0, 1, 1), (A, 0, 1), (POP, 0, 0), (A, 3, 1)]))
+        out.append((3, cons, [cl(0, 0, 1, 1), cl(1, 0, 2, 1), (A, 0, 1), (POP, 0, 0), (A, 1, 0), (POP, 0, 0)]))
+        out.append((2, cons[:2], [cl(0, 1, 1, 1), (A, 0, 0), (POP, 0, 0), (A, 1, 1)]))
     # the same boundary reached through a two-edge path t1 -> t2 -> t3
     for e in (-1, 0, 1):
         cons = [(1, 2, 1), (2, 3, 1), (3, 1, -2 + e), (1, 3, 2 + e)]
@@ -78,7 +88,10 @@ def sample(rng, n, T, maxc, maxh):
 def fmt(T, cons, hist):
     cs = ', '.join('c%d: t%d-t%d<=%d' % (i, t, f, d) for i, (f, t, d) in enumerate(cons))
     nm = {A: 'assume', POP: 'pop', ROOT: 'assert-at-root', CHK: 'check'}
-    hs = '; '.join(nm[o] + ('' if o == POP else '(%sc%d)' % ('' if s else '!', c)) for o, c, s in hist)
+    def one(o, c, s):
+        if o == CL: return 'root-clause(%sc%d | %sc%d)' % ('' if s & 1 else '!', c, '' if s & 2 else '!', s >> 2)
+        return nm[o] + ('' if o == POP else '(%sc%d)' % ('' if s else '!', c))
+    hs = '; '.join(one(o, c, s) for o, c, s in hist)
     return '%s  ::  %s' % (cs, hs)
 
 
